@@ -253,6 +253,39 @@ func c12Confinement(c *core.Ctx) {
 			}
 		}
 	}
+	// contains(os path): the way from an OS path to a label. A path outside the project root - in particular in a sibling
+	// directory whose name merely starts with the root directory's name - is not contained in the project.
+	{
+		parent := filepath.Dir(root)
+		var abs []string
+		for _, sib := range []string{"c12proj-backup", "c12project", "c12proj.old", "c12proj2", "c12pro", "other"} {
+			os.MkdirAll(filepath.Join(parent, sib, "sub"), 0o755)
+			os.WriteFile(filepath.Join(parent, sib, "sub", "in.txt"), []byte("x"), 0o644)
+			abs = append(abs, filepath.Join(parent, sib), filepath.Join(parent, sib, "sub", "in.txt"), filepath.Join(root, "..", sib, "sub", "in.txt"))
+			defer os.RemoveAll(filepath.Join(parent, sib))
+		}
+		abs = append(abs, root, root+"/", filepath.Join(root, "a"), filepath.Join(root, "a", "f.txt"), filepath.Join(root, "a", "..", "a", "f.txt"), filepath.Join(root, "nonexistent", "x"),
+			parent, "/", outside, filepath.Join(root, "..", "outside.txt"), filepath.Join(root, "a", "..", ".."), root+"x", root+"/../c12proj/a")
+		thread, globals := proj.REPLEnv(io.Discard, &label.Label{Package: "//"})
+		for i, p := range abs {
+			id := fmt.Sprintf("confine/contains/%d", i)
+			v, err := starlark.Call(thread, globals["contains"], starlark.Tuple{starlark.String(p)}, nil)
+			c.EvalN(1)
+			c.Count("contains_calls", 1)
+			if err != nil {
+				continue
+			}
+			tup, ok := v.(starlark.Tuple)
+			if !ok || len(tup) != 2 {
+				continue
+			}
+			got := tup[1] == starlark.True
+			if want := inside(filepath.Clean(p)); got != want {
+				c.Violation(id, "", "path-escapes-root", map[string]any{"builtin": "contains", "path": p, "contained_according_to_dawn": got, "inside_the_root": want, "result": v.String(), "root": root})
+			}
+			c.Distinct("C" + p)
+		}
+	}
 	// adversarial target names: every accepted name must get its own record file inside
 	// .dawn/build/targets (the record path is derived from the label)
 	advNames := []string{"..", ".", "%2F", "%", "a%2Fb", "%2e%2e", "BUILD.dawn", " ", "é", "a b", "\\", "name.with.dots", "-", "@v2", "a%", "%25", "A", "a", "con", "x\ty", "\u202e", "a//b", "a:b", ""}
